@@ -5,33 +5,70 @@ From Verif.C17 Require Export Model.
 Import ListNotations.
 Local Open Scope Z_scope.
 
-(* what the harness saw *)
+(* what the harness saw.  Numbers travel as dyadics m * 2^e (e = 9999: m = 0 NaN, 1 +inf, -1 -inf, 2 -0)
+   because numerals are what costs time when coqc reads the cases. *)
+Definition dec (m e : Z) : spec_float :=
+  if e =? 9999 then
+    (if m =? 0 then S754_nan else if m =? 1 then S754_infinity false
+     else if m =? -1 then S754_infinity true else S754_zero true)
+  else of_Z_scaled m e.
+Definition dopt (d : Z) : option nat := if d =? 0 then None else Some (Z.to_nat (d - 1)).
+Definition cI (m e d : Z) : iarg := mkI (to_bits (dec m e)) (dopt d).
+Definition cV (m e d : Z) : varg := mkV false (to_bits (dec m e)) (dopt d).
+Definition cB (z d : Z) : varg := mkV true z (dopt d).
+
+Definition n_ := Z.to_nat.
+Definition wCtor k b o l := OCtor k (n_ b) o l.
+Definition wDvCtor b o l := ODvCtor (n_ b) o l.
+Definition wGet v k := OGet (n_ v) k.
+Definition wSet v k a := OSet (n_ v) k a.
+Definition wSetArr v s o := OSetArr (n_ v) s o.
+Definition wSetTyped v s o := OSetTyped (n_ v) (n_ s) o.
+Definition wCopyWithin v t f e := OCopyWithin (n_ v) t f e.
+Definition wFill v a s e := OFill (n_ v) a s e.
+Definition wSlice v s e := OSlice (n_ v) s e.
+Definition wSubarray v s e := OSubarray (n_ v) s e.
+Definition wReverse v := OReverse (n_ v).
+Definition wDvGet d k i le := ODvGet (n_ d) k i le.
+Definition wDvSet d k i a le := ODvSet (n_ d) k i a le.
+Definition wBufSlice b s e := OBufSlice (n_ b) s e.
+Definition wGoWrite b i x := OGoWrite (n_ b) i (Z.to_N x).
+Definition wDetach b := ODetach (n_ b).
+Definition wLens v := OLens (n_ v).
+
 Inductive ores :=
-| XUndef | XNum (bits : Z) | XBig (z : Z) | XErr (e : err) | XPanic | XOther
+| XUndef | XNum (m e : Z) | XBig (z : Z) | XErr (e : err) | XPanic | XOther
 | XNew (len : Z) | XLens (a b c : Z).
 
-(* one step: result, "all canary bytes around every Go-supplied buffer are intact", and the packed
-   contents (sentinel 1, then the bytes, base 256, first byte most significant) of every buffer whose
-   memory differs from the previous step (new buffers are appended with the next id) *)
-Record sobs := mkO { o_res : ores; o_canary : bool; o_delta : list (nat * N) }.
+(* one step: result, "all canary bytes around every Go-supplied buffer are intact", and a 32-bit
+   polynomial hash of the memory of all buffers (-1: same as at the previous step) *)
+Record sobs := mkO { o_res : ores; o_canary : bool; o_hash : Z }.
 
-Record tcase := mkCase { c_init : list N; c_ops : list op; c_obs : list sobs }.
+(* initial buffers are (length, seed) pairs expanded by the same generator on both sides;
+   c_final is a 61-bit hash of all memory at the end of the history *)
+Record tcase := mkCase { c_init : list (Z * Z); c_ops : list op; c_obs : list sobs; c_final : Z }.
 
-Definition pack (l : list N) : N := fold_left (fun acc b => (acc * 256 + b)%N) l 1%N.
-Fixpoint unpack (fuel : nat) (x : N) (acc : list N) : list N :=
-  match fuel with
-  | O => acc
-  | S f => if (x <=? 1)%N then acc else unpack f (x / 256)%N ((x mod 256)%N :: acc)
+Fixpoint lcg_bytes (n : nat) (x : Z) : list N :=
+  match n with
+  | O => []
+  | S n' => let x' := (x * 1103515245 + 12345) mod 2147483648 in
+            Z.to_N ((x' / 65536) mod 256) :: lcg_bytes n' x'
   end.
+Definition init_buf (ns : Z * Z) : buffer :=
+  mkBuf (lcg_bytes (Z.to_nat (fst ns)) (snd ns mod 2147483648)) false.
+Definition init_state (c : tcase) : state := mkSt (map init_buf (c_init c)) [] [].
 
-Definition init_state (c : tcase) : state :=
-  mkSt (map (fun x => mkBuf (unpack 4096 x []) false) (c_init c)) [] [].
+Definition hash_gen (mul mask : Z) (st : state) : Z :=
+  fold_left (fun h b => Z.land (fold_left (fun h x => Z.land (h * mul + Z.of_N x + 1) mask) (b_bytes b) h * mul + 300) mask)
+            (bufs st) 7.
+Definition hash32 := hash_gen 257 4294967295.                 (* mod 2^32 *)
+Definition hash61 := hash_gen 1000003 2305843009213693951.    (* mod 2^61 *)
 
 Definition res_match (o : ores) (r : res) : bool :=
   match o, r with
   | XUndef, RUndef => true
-  | XNum b, RElt (EInt z) => to_bits (of_Z z) =? b
-  | XNum b, RElt (EFlt f) => to_bits f =? b
+  | XNum m e, RElt (EInt z) => to_bits (of_Z z) =? to_bits (dec m e)
+  | XNum m e, RElt (EFlt f) => to_bits f =? to_bits (dec m e)
   | XBig a, RElt (EBig z) => a =? z
   | XErr TypeError, RErr TypeError => true
   | XErr RangeError, RErr RangeError => true
@@ -42,39 +79,21 @@ Definition res_match (o : ores) (r : res) : bool :=
   | _, _ => false
   end.
 
-Fixpoint set_nth (i : nat) (x : N) (l : list N) : list N :=
-  match l, i with
-  | [], _ => [x]                       (* id = current length: a new buffer *)
-  | _ :: r, O => x :: r
-  | y :: r, S j => y :: set_nth j x r
-  end.
-Definition apply_delta (cur : list N) (d : list (nat * N)) : list N :=
-  fold_left (fun c '(i, x) => set_nth i x c) d cur.
-
-Fixpoint list_eqb (a b : list N) : bool :=
-  match a, b with
-  | [], [] => true
-  | x :: a', y :: b' => N.eqb x y && list_eqb a' b'
-  | _, _ => false
-  end.
-
-Definition packed (st : state) : list N := map (fun b => pack (b_bytes b)) (bufs st).
-
 (* index of the first step at which the implementation's observation differs from the model *)
-Fixpoint first_bad (m : mode) (st : state) (cur : list N) (i : nat) (ops : list op) (obs : list sobs) : option nat :=
+Fixpoint first_bad (m : mode) (st : state) (cur : Z) (i : nat) (ops : list op) (obs : list sobs) (fin : Z) : option nat :=
   match ops, obs with
-  | [], [] => None
+  | [], [] => if hash61 st =? fin then None else Some i
   | o :: ops', s :: obs' =>
       let '(st', r, _) := step m st o in
-      let cur' := apply_delta cur (o_delta s) in
-      if res_match (o_res s) r && o_canary s && list_eqb (packed st') cur'
-      then first_bad m st' cur' (S i) ops' obs'
+      let cur' := if o_hash s <? 0 then cur else o_hash s in
+      if res_match (o_res s) r && o_canary s && (hash32 st' =? cur')
+      then first_bad m st' cur' (S i) ops' obs' fin
       else Some i
   | _, _ => Some i
   end.
 
 Definition bad (m : mode) (c : tcase) : option nat :=
-  first_bad m (init_state c) (c_init c) 0 (c_ops c) (c_obs c).
+  first_bad m (init_state c) (hash32 (init_state c)) 0 (c_ops c) (c_obs c) (c_final c).
 
 (* the oracle is S *)
 Definition check_case (c : tcase) : bool := match bad MS c with None => true | Some _ => false end.
@@ -86,18 +105,18 @@ Fixpoint mismatch_from (i : N) (cs : list tcase) : list N :=
   end.
 Definition mismatch_ids := mismatch_from 0%N.
 
-(* the model's own run: per step the result, the packed buffers, and whether every touched range
+(* the model's own run: per step the result, the buffers' bytes, and whether every touched range
    was live and inside the regions the operation is entitled to *)
-Fixpoint trace (m : mode) (st : state) (ops : list op) : list (res * list N * bool) :=
+Fixpoint trace (m : mode) (st : state) (ops : list op) : list (res * list (list N) * bool) :=
   match ops with
   | [] => []
   | o :: r =>
       let '(st', x, t) := step m st o in
-      (x, packed st', forallb (touch_ok (allowed st o)) t) :: trace m st' r
+      (x, map b_bytes (bufs st'), forallb (touch_ok (allowed st o)) t) :: trace m st' r
   end.
 
 Record expect := mkX { first_bad_S : option nat; first_bad_I : option nat;
-                       step_S : option (res * list N * bool); step_I : option (res * list N * bool) }.
+                       step_S : option (res * list (list N) * bool); step_I : option (res * list (list N) * bool) }.
 
 Definition expected (c : tcase) : expect :=
   let bs := bad MS c in
